@@ -25,7 +25,11 @@ func main() {
 	dag := flag.Bool("d", false, "print dag")
 	key := flag.String("k", "", "sort key")
 	desc := flag.Bool("desc", false, "desc")
+	batch := flag.Int("b", 0, "values per batch")
 	flag.Parse()
+	if *batch > 0 {
+		zbuf.PullerBatchValues = *batch
+	}
 	prog := flag.Arg(0)
 	input := flag.Arg(1)
 	if input == "-" {
